@@ -2,7 +2,8 @@
 //! its generic convert / format functions can run over the simulated image
 //! file.  The wrappers below live in the same module and only forward.
 #![allow(dead_code, unused_imports, clippy::all)]
-include!("/repo/src/main.rs");
+// QSIM_REPO_DIR: [env] in .cargo/config.toml, "/repo" for every registered command
+include!(concat!(env!("QSIM_REPO_DIR"), "/src/main.rs"));
 
 pub async fn v_convert_to_qcow2_dev<T: Qcow2IoOps>(raw: &Path, dev: &Qcow2Dev<T>) -> Qcow2Result<()> {
     convert_to_qcow2_dev(raw, dev).await
